@@ -12,6 +12,8 @@ THEOREMS = TB.THEOREMS_C02 + [
     ('EAO.Properties.C12', 'EAO.C12.limits_follow_dt', 'per-step volume limit = rate x step length'),
     ('EAO.Properties.C05', 'EAO.C05.storage_level_bounds', 'storage rows mean the physical level recursion with bounds and end level'),
 ]
+from ..comp import coarsetextbook as _CTB
+THEOREMS = THEOREMS + _CTB.THEOREMS_C02_COARSE
 PARTIAL = ['every asset class of the property has a refinement theorem (storages in plain-LP form, transports, extended transports with takes, one- and two-variable contracts with takes, multi-commodity contracts, empty windows); '
            'explicit hypotheses: two-variable contract needs extra costs >= 0 and discount factors >= 0 (machine-checked witness Ex.ec_nonneg_needed that it cannot be dropped; the constructor does not check it), take rows need pairwise different steps of the window (IdxInj, evaluated per case) and an extended transport two different nodes; '
            'the MIP storage options (no_simult_in_out, max_store_duration) are outside the textbook spec and covered under C05; the optimum itself is compared with the independent reference LP by the oracle (portfolio_refines gives equal upper bounds of the value sets, not the solver)',
